@@ -47,7 +47,10 @@ RootMut(e) ==
     [] e.k = "slice" -> (IF e.lo > 0 THEN {[e EXCEPT !.lo = e.lo - 1, !.hi = e.hi - 1]} ELSE {})
                         \cup (IF e.hi < e.a[1].w THEN {[e EXCEPT !.lo = e.lo + 1, !.hi = e.hi + 1]} ELSE {})
     [] e.k = "cond" -> {[e EXCEPT !.a = <<e.a[1], e.a[3], e.a[2]>>]}
-    [] e.k = "compose" -> IF Len(e.a) = 2 /\ e.a[1].w = e.a[2].w THEN {[e EXCEPT !.a = <<e.a[2], e.a[1]>>]} ELSE {}
+    [] e.k = "compose" -> (IF Len(e.a) = 2 /\ e.a[1].w = e.a[2].w THEN {[e EXCEPT !.a = <<e.a[2], e.a[1]>>]} ELSE {})
+                          \* slot bounds: the last slot ends 8 bits later (same parts, same starts); the first boundary moves by one bit
+                          \cup {[e EXCEPT !.s[Len(e.s)] = <<@[1], @[2] + 8>>, !.w = @ + 8]}
+                          \cup (IF Len(e.s) >= 2 /\ e.s[1][2] > 1 THEN {[e EXCEPT !.s[1] = <<0, @[2] - 1>>, !.s[2] = <<@[1] - 1, @[2]>>]} ELSE {})
     [] e.k = "aff" -> {}
     [] OTHER -> {}
 Mutations(e) == UNION {{ReplaceAt(e, p, m) : m \in RootMut(SubAt(e, p))} : p \in Paths(e)} \ {e}
